@@ -7,7 +7,7 @@ def units(tier):
     q = tier == "quick"
     W = 600 if q else 3000
     E = lambda n, d, b="": PathEntry(n, desc=d, wall=W, bounds=b)
-    lens = [0, 1, 2, 3, 4] if q else [0, 1, 2, 3, 4, 5, 6]
+    lens = [0, 1, 2, 3, 4, 5] if q else [0, 1, 2, 3, 4, 5, 6, 7]
     ents = []
     for n in lens:
         ents.append(E("vp_main_tokenize_%d" % n, "tokenize(str,':'): every string of %d arbitrary non-NUL bytes: tokens = maximal non-delimiter runs in order, incl. 1-character ones, no empty ones" % n, "string length %d" % n))
@@ -15,7 +15,7 @@ def units(tier):
     for ab in (["0_0", "0_2", "2_0", "1_2", "2_1", "2_2", "3_3"] if q else ["0_0", "0_2", "2_0", "1_2", "2_1", "2_2", "3_2", "2_3", "3_3"]):
         ents.append(E("vp_main_prefix_" + ab, "longestBeginningMatch / beginsWith for all strings of lengths %s (arbitrary bytes)" % ab, "string lengths " + ab))
     ents.append(E("vp_main_case_2", "lowerCase/upperCase on every 2-byte string"))
-    for n in ([1, 2, 3, 4] if q else [1, 2, 3, 4, 5, 6]):
+    for n in ([1, 2, 3, 4, 5] if q else [1, 2, 3, 4, 5, 6]):
         ents.append(E("vp_main_filename_%d" % n, "FileName over every string of %d arbitrary non-NUL bytes: normalisation, path()+base(), name/ext/dropExt from the last component only" % n, "string length %d" % n))
     ents.append(E("vp_main_filename_compose", "FileName addExt / operator+"))
     ents.append(E("vp_main_removeargs", "removeArgs on a raw argument vector, all (ac, where, howMany) with ac <= 5"))
